@@ -27,6 +27,7 @@ type c26Params struct {
 	Faults []c25Fault `json:"faults"` // operation numbers count from the end of the set-up
 	Mixed  bool       `json:"mixed_timestamps"` // the items of a subscription alternate between TimestampsToReturn Both and Source
 	Second string     `json:"second_fault"`     // reset | restart: a second loss, 20 intervals after the first fault window began
+	Cancel int        `json:"cancel_after_ms"`  // >0: the last subscription is cancelled this long after the steady state began (its items need not deliver afterwards)
 }
 
 type c26Obs struct {
@@ -95,8 +96,10 @@ func c26Body(p c26Params) func() {
 			}
 		}()
 		params := &opcua.SubscriptionParameters{Interval: 100 * time.Millisecond, MaxKeepAliveCount: 10, LifetimeCount: 1000}
+		var subs []*opcua.Subscription
 		for s := 0; s < p.Subs; s++ {
 			sub, err := c.Subscribe(ctx, params, notifs)
+			subs = append(subs, sub)
 			if err != nil {
 				obs.setupErr = err.Error()
 				return
@@ -162,6 +165,13 @@ func c26Body(p c26Params) func() {
 			}
 			return ""
 		}
+		if p.Cancel > 0 {
+			time.Sleep(time.Duration(p.Cancel) * time.Millisecond)
+			if err := subs[len(subs)-1].Cancel(ctx); err != nil {
+				obs.setupErr = "cancel: " + err.Error()
+				return
+			}
+		}
 		time.Sleep(20 * c25Interval) // faults strike, the client reconnects and restores its subscriptions
 		if p.Second != "" {
 			obs.injected = append(obs.injected, fmt.Sprintf("%s at %d ms", p.Second, vrt.Now()/1e6))
@@ -194,6 +204,9 @@ func c26Check(p c26Params) func(x *vrt.Exec) (string, string, string) {
 	if p.Second != "" {
 		kinds += "+later:" + p.Second
 	}
+	if p.Cancel > 0 {
+		kinds += "+cancel-one"
+	}
 	tag := fmt.Sprintf("c26/subs=%d/items=%d/faults=%s", p.Subs, p.Items, kinds)
 	if p.Mixed {
 		tag += "/mixed-timestamps"
@@ -215,6 +228,9 @@ func c26Check(p c26Params) func(x *vrt.Exec) (string, string, string) {
 		// deliveries after recovery
 		var missing []string
 		for k := 0; k < p.Subs*p.Items; k++ {
+			if p.Cancel > 0 && k/p.Items == p.Subs-1 {
+				continue // the cancelled subscription
+			}
 			if !o.afterRec[fmt.Sprintf("h%d", 100+k)] {
 				missing = append(missing, fmt.Sprintf("item handle %d (sub %d)", 100+k, k/p.Items))
 			}
@@ -292,6 +308,9 @@ func c26Scenarios(thorough bool) []driver.Scenario {
 		if p.Second != "" {
 			name += "/then-" + p.Second
 		}
+		if p.Cancel > 0 {
+			name += fmt.Sprintf("/cancel-last-after-%dms", p.Cancel)
+		}
 		if p.Mixed {
 			name += "/mixed-timestamps"
 		}
@@ -318,6 +337,10 @@ func c26Scenarios(thorough bool) []driver.Scenario {
 		}
 	}
 	// two losses in a row (the subscription is restored twice), items with different timestamp settings
+	// one of two subscriptions is cancelled while acknowledgements are in flight, at every phase of the publishing interval
+	for ms := 10; ms <= 100; ms += 10 {
+		add(c26Params{Subs: 2, Items: 1, Cancel: ms})
+	}
 	add(c26Params{Subs: 1, Items: 2, Mixed: true})
 	secondAt := 4
 	if thorough {
